@@ -38,6 +38,8 @@ def describe(r):
         return {"engine": "resp", "t": "int", "form": r["form"], "why": "rep-only" if False else "text"}, f"{r['ty']} {v} formatted ({r['form']}) as {text!r} (library reparse ok: {r['rep']})"
     if t == "flt":
         return {"engine": "resp", "t": "flt", "w": r["w"], "cls": r["obs"]["cls"]}, f"f{r['w']} bits {r['bits']} ({r['obs']['cls']}) formatted as {text!r} (library reparse ok: {r['rep']})"
+    if t in ("unitfail", "unitok"):
+        return {"engine": "resp", "t": t}, f"response unit with an unformattable datum ({r.get('kind')} at position {r.get('pos')}) finished with error={r['finerr']}, buffer {text!r}"
     if t == "strrep":
         return {"engine": "resp", "t": "strrep", "hasquote": bool(r.get("hasquote"))}, f"string value {txt(r['val'])[:60]!r} emitted as {text!r}: the library's own parser does not return the original value"
     if t in ("str", "blk", "chr", "expr"):
